@@ -447,8 +447,8 @@ def At(arr: str, elems: Expr, idx: tuple) -> Expr:
 
 
 def Cmp(op: str, a: Expr, b: Expr) -> Expr:
-    if a[0] == "num" and b[0] == "num":
-        x, y = a[1], b[1]
+    if a[0] in ("num", "bool") and b[0] in ("num", "bool"):
+        x, y = float(a[1]), float(b[1])
         return Bool({"<": x < y, "<=": x <= y, ">": x > y, ">=": x >= y, "==": x == y, "!=": x != y}[op])
     return _mk("cmp", op, a, b)
 
